@@ -76,6 +76,7 @@ def leaf_hops(l: "Leaf") -> List[Tuple[str, Any]]:
 
 @dataclass
 class SliceResult:
+    exploded: bool = False
     leaves: Set[Leaf] = field(default_factory=set)
     calls: List[CallSite] = field(default_factory=list)  # every call traversed (repo and external)
     fields: Set[str] = field(default_factory=set)  # heap fields read on the way (Class.attr)
@@ -120,7 +121,7 @@ class Flow:
     # ================================================================== public
     def slice(self, fn: FunctionInfo, expr: ast.AST, scope: Iterable[FunctionInfo],
               roots: Iterable[FunctionInfo] = (), path: Path = (), max_states: int = 60000,
-              stop_at: Iterable[FunctionInfo] = ()) -> SliceResult:
+              stop_at: Iterable[FunctionInfo] = (), partial_ok: bool = False) -> SliceResult:
         """backward slice of `expr` (evaluated in fn).  `scope`: functions whose stores / call sites count;
         `roots`: functions whose parameters are leaves (the entry points)."""
         scope_set = set(scope)
@@ -140,6 +141,11 @@ class Flow:
                 continue
             seen.add(key)
             if len(seen) > max_states:
+                if partial_ok:
+                    # the caller only draws *positive* conclusions (something IS on the slice) from an incomplete slice
+                    res.truncated = True
+                    res.exploded = True
+                    break
                 raise AnalysisError(f"value-flow slice exploded at {fn.short}: {norm(expr)[:60]}")
             for nxt in self._step(f, node, p, ctx, post, scope_set, root_set, res, call_seen):
                 work.append(nxt)
@@ -730,6 +736,9 @@ class Flow:
         if isinstance(func, ast.Attribute) and not self.cg._is_static_chain(f, func):
             recv = func.value
         # structure-preserving externals
+        if name == "typing.cast" and len(node.args) == 2:
+            out.append((f, node.args[1], p, ctx, post))  # cast(T, value): the value is the second argument
+            return
         if name in IDENTITY_FUNCS and node.args:
             out.append((f, node.args[0], p, ctx, post))
             return
